@@ -176,3 +176,79 @@ PARTS = [
          budget={'quick': 250, 'thorough': 5000},
          describe='get_connected_components against union-find'),
 ]
+
+
+# ------------------------------------------------------------- table level
+
+from vfw import gen_truth, model_master  # noqa: E402
+from vfw.core import guarded  # noqa: E402
+from vfw.pipeline import Workflow  # noqa: E402
+
+
+@st.composite
+def table_cases(draw, tier):
+    record = draw(gen_truth.far_group_records(noise=draw(st.booleans())))
+    record['grid'] = draw(st.sampled_from(['1.0', '0.5', '2.0']))
+    return record
+
+
+def check_tables(case):
+    h = float(case['grid'])
+    labels = set()
+    with Workflow(case) as wf:
+        guarded(wf.load)
+        guarded(wf.classify)
+        guarded(wf.zeta_grid, case['grid'])
+        connection = wf.connect()
+        try:
+            rises, _ = model_master.rise_series(connection)
+            recs = model_master.recession_series(connection)
+            plans = {}
+            for which, series in (('rise', rises), ('recession', recs)):
+                table, _ = model_master.crossing_table(series, h)
+                members, levels, ok = model_master.main_body(table)
+                comps = gen_series.components(table)
+                by_series = sorted((len(c[0]) for c in comps), reverse=True)
+                strictly = ok and (len(by_series) == 1
+                                   or by_series[0] > by_series[1])
+                plans[which] = (members, levels, strictly, len(comps),
+                                set(series))
+        finally:
+            connection.close()
+        done = []
+        for which, run in (('rise', wf.rise), ('recession', wf.recession)):
+            if plans[which][2]:
+                guarded(run)
+                done.append(which)
+        if not done:
+            raise Reject('both main bodies ambiguous')
+        connection = wf.connect()
+        try:
+            for which in done:
+                members, levels, _, ncomp, everyone = plans[which]
+                table_name = ('rising_interval' if which == 'rise'
+                              else 'recession_interval')
+                got = {r for (r,) in connection.execute(
+                    'SELECT start_epoch FROM {}'.format(table_name))}
+                if got - members:
+                    raise Violation(
+                        'unconnected-interval-placed:' + which,
+                        'intervals {} share no level with the main '
+                        'body'.format(sorted(got - members)[:4]))
+                if members - got:
+                    raise Violation(
+                        'main-body-interval-left-out:' + which,
+                        'missing {}'.format(sorted(members - got)[:4]))
+                if ncomp >= 2 and len(everyone - members) >= 1:
+                    labels.add(which + '-has-outsiders')
+        finally:
+            connection.close()
+    if labels:
+        labels.add('nontrivial')
+    return labels
+
+
+PARTS.append(
+    Part('tables', check_tables, strategy=lambda tier: table_cases(tier),
+         budget={'quick': 15, 'thorough': 150},
+         describe='far-away group left out, main body complete (CLI)'))
